@@ -272,6 +272,19 @@ pub fn gen_kind_packet(sim: &Sim, k: u32, to: u16, pad: u8) -> Result<Packet, St
                 data,
             })
         }
+        4 if sim.draw(400) == 399 => {
+            // rarely a data event of several hundred frames, or of the maximum packet size
+            // (28672 bytes = 4096 frames) and the sizes just below it
+            let len = sim.pick(&[28666usize, 28665, 28660, 28659, 1800, 4096]);
+            sim.count("data_event_of_maximum_size_class");
+            AnyEvent::Data(DataEvent {
+                receiver_address: to,
+                transmitter_address: word(sim),
+                data_len: len as u16,
+                data: fill_pattern(sim.draw(7), sim.draw(1 << 16), len),
+            })
+            .to_packet(pad)
+        }
         _ => gen_event(sim, k, to, SizeCfg { large_pct: 0, huge_pct: 0 }).to_packet(pad),
     }
 }
